@@ -91,6 +91,7 @@ def run_check(prop, tier, seed, jobs, runs=None, budget=None, write_evidence=Tru
                 exit_code = 1
     for p in profs:
         p.masks = sorted(masks)
+        p.tier = tier
 
     # ---------------------------------------------------------------- 2. directed parts + 3. search
     agg_stats = Counter()
@@ -102,6 +103,7 @@ def run_check(prop, tier, seed, jobs, runs=None, budget=None, write_evidence=Tru
     samples = []
     extra_cov = {}
     digests = []
+    direct_viol = 0
     share = None
     if budget:
         share = budget / len(profs)
@@ -120,6 +122,11 @@ def run_check(prop, tier, seed, jobs, runs=None, budget=None, write_evidence=Tru
                     continue
                 new_violations.append((p, v))
             total_runs += d.get("evaluations", 0)
+            for path_, msg_ in d.get("direct_violations", []):
+                _print("VIOLATION property=%s replay=%s" % (p.prop, path_))
+                _print("  " + msg_[:400])
+                exit_code = 1
+                direct_viol += 1
             if d.get("error"):
                 _print("HARNESS-ERROR in directed part of %s:\n%s" % (p.name, d["error"]))
                 return 2
@@ -237,8 +244,10 @@ def run_check(prop, tier, seed, jobs, runs=None, budget=None, write_evidence=Tru
             "jobs": jobs,
             "exhaustive": False,
         }
+        for p in profs:
+            cov.update(p.evidence_extra(agg_stats))
         ev = {"property_id": prop, "tier": tier, "seed": seed, "level": profs[0].level, "coverage": cov,
-              "assumptions": profs[0].assumptions, "wall_s": round(wall, 2), "violations": n_viol}
+              "assumptions": profs[0].assumptions, "wall_s": round(wall, 2), "violations": n_viol + direct_viol}
         os.makedirs(E.EVIDENCE, exist_ok=True)
         with open(os.path.join(E.EVIDENCE, "%s.json" % prop), "w") as f:
             json.dump(ev, f, indent=1, default=E._json_default)
